@@ -255,6 +255,49 @@ def gen_mapping(src: Path, out: list[str]):
     out.append("Definition content_type_synonyms : list (str * str) := [" + "; ".join(f"({coq_str(k)}, {coq_str(v)})" for k, v in syn.items()) + "].")
 
 
+def gen_optimize(src: Path, out: list[str]):
+    """rdflib_custom._optimize_node: the node name that is rewritten, the operand name that is moved to the front, the two
+    operand keys, read from the test `X.name == A and X.<k1>.name != B and X.<k2>.name == B` and the call
+    `X.update(<k1>=X.<k2>, <k2>=X.<k1>)` -- wherever in the module they are written."""
+    tree = ast.parse((src / "curies" / "mapping_service" / "rdflib_custom.py").read_text())
+
+    def name_of(e):
+        """X.name -> ('', X) ; X.k.name -> (k, X)"""
+        if isinstance(e, ast.Attribute) and e.attr == "name":
+            v = e.value
+            if isinstance(v, ast.Name):
+                return "", v.id
+            if isinstance(v, ast.Attribute) and isinstance(v.value, ast.Name):
+                return v.attr, v.value.id
+        return None
+
+    tests, updates, recursions = [], [], 0
+    for n in ast.walk(tree):
+        if isinstance(n, ast.BoolOp) and isinstance(n.op, ast.And) and len(n.values) == 3:
+            cs = n.values
+            if all(isinstance(c, ast.Compare) and len(c.ops) == 1 and len(c.comparators) == 1 and isinstance(c.comparators[0], ast.Constant)
+                   and isinstance(c.comparators[0].value, str) and name_of(c.left) for c in cs):
+                (k0, x0), (k1, x1), (k2, x2) = (name_of(c.left) for c in cs)
+                ops = [type(c.ops[0]) for c in cs]
+                if k0 == "" and k1 and k2 and k1 != k2 and x0 == x1 == x2 and ops == [ast.Eq, ast.NotEq, ast.Eq] \
+                        and cs[1].comparators[0].value == cs[2].comparators[0].value:
+                    tests.append((cs[0].comparators[0].value, cs[1].comparators[0].value, k1, k2, x0))
+        if isinstance(n, ast.Call) and isinstance(n.func, ast.Attribute) and n.func.attr == "update" and not n.args and len(n.keywords) == 2:
+            kw = {k.arg: k.value for k in n.keywords}
+            if all(isinstance(v, ast.Attribute) and isinstance(v.value, ast.Name) for v in kw.values()):
+                updates.append({k: v.attr for k, v in kw.items()})
+        if isinstance(n, ast.For) and isinstance(n.iter, ast.Call) and isinstance(n.iter.func, ast.Attribute) and n.iter.func.attr == "values":
+            recursions += 1
+    if len(tests) != 1 or len(updates) != 1 or recursions != 1:
+        raise Unsupported("rdflib_custom._optimize_node: expected one operand test, one update(...) swap and one loop over .values()")
+    a, b, k1, k2, _ = tests[0]
+    if updates[0] != {k1: k2, k2: k1}:
+        raise Unsupported("rdflib_custom._optimize_node: update(...) does not swap the two tested operands")
+    out.append(f"Definition opt_join_name : str := {coq_str(a)}.")
+    out.append(f"Definition opt_multiset_name : str := {coq_str(b)}.")
+    out.append(f"Definition opt_operand_keys : str * str := ({coq_str(k1)}, {coq_str(k2)}).")
+
+
 def gen_resolver(src: Path, out: list[str]):
     tree = ast.parse((src / "curies" / "resolver_service.py").read_text())
     env = const_env(tree)
@@ -296,7 +339,7 @@ def gen_exceptions(src: Path, out: list[str]):
     out.append("].")
 
 
-SECTIONS = [("w3c", "gen_w3c"), ("discovery", "gen_discovery"), ("mapping", "gen_mapping"), ("resolver", "gen_resolver"),
+SECTIONS = [("w3c", "gen_w3c"), ("discovery", "gen_discovery"), ("mapping", "gen_mapping"), ("optimize", "gen_optimize"), ("resolver", "gen_resolver"),
             ("exceptions", "gen_exceptions")]
 
 
